@@ -3,7 +3,7 @@ configuration type-checks, feature gates are confined to the documented switch p
 storage rules and the public API of the switched types hold in every configuration)."""
 import re
 
-from .core import run_property, AnalysisIncomplete, walk, peel, last_seg, calls_in, callee_all, strip_generics, src_facts, CONFIGS, Facts, facts_dir, Report
+from .core import run_property, AnalysisIncomplete, walk, peel, last_seg, calls_in, callee_all, strip_generics, src_facts, CONFIGS, Facts, facts_dir, Report, item_scope
 from .shared import order_ops
 import os
 import time
@@ -34,9 +34,9 @@ CONFINED = {
 }
 # exact gate set of `unbounded` (scope, node kind, name)
 UNBOUNDED_GATES = {
-    ('prelude::RecursionCheck', 'field', 'current'), ('prelude', 'item:const', 'LIMIT'),
-    ('prelude::<RecursionCheck>::check_depth', 'expr:if', ''), ('prelude::<RecursionCheck>::enter', 'expr:block', ''),
-    ('prelude::<RecursionCheck>::exit', 'expr:block', ''), ('CustomError', 'variant', 'RecursionLimitExceeded'),
+    ('RecursionCheck', 'field', 'current'), ('', 'item:const', 'LIMIT'),
+    ('<RecursionCheck>::check_depth', 'expr:if', ''), ('<RecursionCheck>::enter', 'expr:block', ''),
+    ('<RecursionCheck>::exit', 'expr:block', ''), ('CustomError', 'variant', 'RecursionLimitExceeded'),
 }
 # item-level forks (same item defined twice under complementary cfgs) that were reviewed
 ITEM_FORKS = {
@@ -46,6 +46,12 @@ ITEM_FORKS = {
     ('crates/toml_edit/src/internal_string.rs', 'Inner'),
     ('crates/toml/src/edit.rs', 'de'), ('crates/toml/src/edit.rs', 'ser'),
 }
+
+
+def at_switch_point(src, c, feature):
+    """the documented switch point is an item, not a file: the reviewed gates of `unbounded` keep their standing when the counter type
+    moves to another module of the parser"""
+    return feature == 'unbounded' and '/toml_edit/src/parser/' in c['file'] and (item_scope(src, c), c['node'], c['name']) in UNBOUNDED_GATES
 
 
 def r2_census(rep, repo):
@@ -64,7 +70,7 @@ def r2_census(rep, repo):
         key = f"{c['file']}|{c['scope']}|{c['node']}|{c['name']}|{c['pred']}"
         loc = f"{c['file']}:{c['line']}"
         for f in fs:
-            if f in CONFINED and c['file'] not in CONFINED[f]:
+            if f in CONFINED and c['file'] not in CONFINED[f] and not at_switch_point(src, c, f):
                 rep.bad(R, key + '|confined', f'feature `{f}` is tested in `{c["file"]}` ({c["scope"] or "module level"}): outside its documented switch point '
                         f'{sorted(CONFINED[f])}, so the feature can change behaviour there', loc)
         body_level = not (c['node'].startswith('item') or c['node'] in ('file', 'field', 'variant'))
@@ -78,7 +84,7 @@ def r2_census(rep, repo):
             why = None
             for f in fs:
                 why = why or BODY_FORKS.get((c['file'], c['scope'], f))
-            if not why and fs and all(f in CONFINED and c['file'] in CONFINED[f] for f in fs):
+            if not why and fs and all(f in CONFINED and (c['file'] in CONFINED[f] or at_switch_point(src, c, f)) for f in fs):
                 why = 'inside the documented switch point of the feature (the module as a whole is compared across configurations by R3 / R3b / R3c)'
             if why:
                 seen_body.add((c['file'], c['scope']))
@@ -89,20 +95,27 @@ def r2_census(rep, repo):
         else:
             rep.ok(R, key, 'gates a whole item / field / file', loc)
     # exact gate set of `unbounded`
-    got = {(c['scope'], c['node'], c['name']) for c in cfgs if 'unbounded' in feats_of(c['pred'])}
+    got = {(item_scope(src, c), c['node'], c['name']) for c in cfgs if 'unbounded' in feats_of(c['pred'])}
     rep.check(R, 'unbounded|gate-set', got == UNBOUNDED_GATES, f'{len(got)} gates', f'the `unbounded` gates are {sorted(got ^ UNBOUNDED_GATES)} off the reviewed set: part of the recursion limit '
               f'stays compiled in (or out) regardless of the feature')
     # complementary item definitions
     dup = {}
     for it in src['items']:
-        if it['kind'] in ('use', 'impl', 'extern_crate', 'macro') or it['scope'].startswith('test') or '::test' in it['scope']:
+        # a module is a namespace: what is defined inside both twins is compared item by item (they share file and scope)
+        if it['kind'] in ('use', 'impl', 'extern_crate', 'macro', 'mod') or it['scope'].startswith('test') or '::test' in it['scope']:
             continue
         if it['cfg']:
             dup.setdefault((it['file'], it['scope'], it['kind'], it['name']), []).append(tuple(it['cfg']))
     for (file, scope, kind, name), v in sorted(dup.items()):
         if len(v) > 1 and len(set(v)) > 1:
             ok = (file, name) in ITEM_FORKS
-            rep.check(R, f'{file}|{scope}|{name}|item-fork', ok, 'reviewed item-level fork', f'`{name}` ({kind}) in {file} is defined {len(v)} times under different cfgs {sorted(set(v))}: an unreviewed '
+            how = 'reviewed item-level fork'
+            fs = set().union(*[feats_of(p) for cfgs_ in v for p in cfgs_])
+            if not ok and fs and all(f in CONFINED and file in CONFINED[f] for f in fs):
+                # private twins inside the feature's documented switch point: the module as a whole is compared across configurations (R3 / R3b / R3c)
+                ok = True
+                how = 'inside the documented switch point of the feature'
+            rep.check(R, f'{file}|{scope}|{name}|item-fork', ok, how, f'`{name}` ({kind}) in {file} is defined {len(v)} times under different cfgs {sorted(set(v))}: an unreviewed '
                       f'feature-dependent implementation', file)
     rep.info(R, f'{n} cfg sites analysed in the five library crates')
 
